@@ -218,6 +218,19 @@ impl Check for C07 {
                     return;
                 }
                 let k = idx - nf * 6;
+                if k >= 100 && k < 149 {
+                    // every ordered pair of typed header entries (incl. Partial IV before IV)
+                    let vals: [(i64, Item); 7] = [(1, Item::int(-7)), (2, Item::Array(vec![Item::int(4)])), (3, Item::int(60)), (4, Item::bytes(&[1])), (5, Item::bytes(&[2])), (6, Item::bytes(&[3])), (7, Item::Array(vec![Item::Bytes(vec![]), Item::Map(vec![]), Item::Bytes(vec![])]))];
+                    let (a, b) = (((k - 100) / 7) as usize, ((k - 100) % 7) as usize);
+                    let m = Item::Map(vec![(Item::int(vals[a].0), vals[a].1.clone()), (Item::int(vals[b].0), vals[b].1.clone())]);
+                    let bytes = rcbor::det(&m);
+                    all_entry_points(ctx, &bytes);
+                    let (_t, carried) = crate::hostile::carry_header(2, &bytes);
+                    all_entry_points(ctx, &carried);
+                    let (_t, carried) = crate::hostile::carry_header(1, &bytes);
+                    all_entry_points(ctx, &carried);
+                    return;
+                }
                 let hexes: [&str; 24] = [
                     // 4-element recipient with an empty list; nested
                     "8440a0f680", "8440a0f6818440a0f680", "8440a04180818340a0f6",
